@@ -369,7 +369,21 @@ def fresh_array(name, dtype, shape, ranged=True):
     if rng and ranged:
         lo, hi = rng
         arr.facts_on_read = lambda idx, t: [t >= lo, t <= hi]
+        if shape:
+            # also as a quantified axiom (pattern: the element term) so that it is available under quantifiers
+            ks = [z3.Int(fresh_name("ax")) for _ in shape]
+            note_fact(z3.ForAll(ks, z3.And(f(*ks) >= lo, f(*ks) <= hi), patterns=[f(*ks)]))
     return arr
+
+
+def assume_range(arr, lo, hi):
+    """element range of a harness-created symbolic array: per-read instances + a quantified axiom with the element as pattern.
+    (constrains the uninterpreted function at every index, also outside the array: unobservable)"""
+    lo_t, hi_t = T(lo), T(hi)
+    arr.facts_on_read = lambda idx, t: [t >= lo_t, t <= hi_t]
+    f = arr.uf
+    ks = [z3.Int(fresh_name("ax")) for _ in arr.shape]
+    note_fact(z3.ForAll(ks, z3.And(f(*ks) >= lo_t, f(*ks) <= hi_t), patterns=[f(*ks)]))
 
 
 _LIFT_CACHE = {}
